@@ -145,6 +145,29 @@ def domain(quick, rng):
         for e in range(4, 17):
             for prec in range(4):
                 ft.append((base + 10.0 ** -e, prec))
+    # ... and residue that leaves the value just BELOW a whole second / minute / hour (0.7 + 0.2 + 0.1, 4.35 * 100): the
+    # integer part is one short and the first five decimals are all nines, so rounding up has to carry into the seconds,
+    # minutes and hours (seed C06-h: the fraction read off a '%.10f' rendering, the carry into the integer digits lost)
+    for base in (1, 2, 59, 60, 61, 435, 3599, 3600, 3601, 86399, 86400, 360000):
+        for k in range(18, 53):
+            if base - 2.0 ** -k < base:
+                for prec in range(4):
+                    ft.append((base - 2.0 ** -k, prec))
+        for e in range(6, 17):
+            if base - 10.0 ** -e < base:
+                for prec in range(4):
+                    ft.append((base - 10.0 ** -e, prec))
+    for a in grid:
+        for b in grid:
+            for c in (0.1, 0.7, 59.999, 3599.9):
+                ft.append((a + b + c, (len(ft)) % 4))
+        for mul in (10, 60, 100, 1000):
+            for prec in range(4):
+                ft.append((a * mul, prec))
+    for a in (4.35, 1.15, 2.675, 0.57, 0.58, 1.13, 8.03, 35.99, 9.95, 16.35):
+        for mul in (100, 1000, 60):
+            for prec in range(4):
+                ft.append((a * mul, prec))
     for x in (0, 1, 59, 60, 3600, 86400, 359999):     # ints are accepted too
         for prec in range(4):
             ft.append((x, prec))
